@@ -61,6 +61,7 @@ const c14AllocBound = 64 << 20
 
 // decodeMonitored runs ngap.Decoder under the crash, allocation and slow-call monitors.
 func decodeMonitored(o *fw.Outcome, in []byte, what string) (ok bool) {
+	fw.Beat()
 	run := func() (err error, alloc uint64, dur time.Duration, pan any, stack string) {
 		buf := append([]byte(nil), in...)
 		a0 := heapAllocs()
